@@ -259,6 +259,8 @@ def x_case(ctx, case):
                     ok = ok and got_details is not None and spec["token"].encode() in got_details.get("traceback", b"")
                 elif spec["form"] in ("details", "reason"):
                     ok = ok and got_details == want_details
+                else:
+                    ok = ok and not got_details     # reported without details: none of another test's
                 ctx.check(ok, "tbt.callback-fields",
                           lambda: {"call": {k2: v for k2, v in call.items() if k2 != "_seq"}, "spec": spec,
                                    "want tags": cur, "want start": start_time, "want stop": now, **detail()})
@@ -304,7 +306,9 @@ def small_stacks():
         ["Multi", [["leaf", "py27"], ["leaf", "real"]]], ["Multi", [["leaf", "py26"], ["TBT"]]],
         ["Multi", [["leaf", "twisted"], ["leaf", "ext"], ["TBT"]]],
         ["Decorator", ["leaf", "ext"]], ["Decorator", ["leaf", "real"]],
-        ["Tagger", ["x"], ["b"], ["leaf", "ext"]], ["Tagger", ["x"], [], ["leaf", "real"]]]
+        ["Tagger", ["x"], ["b"], ["leaf", "ext"]], ["Tagger", ["x"], [], ["leaf", "real"]],
+        ["Tagger", ["x"], ["b"], ["leaf", "ext"], "iter"], ["Tagger", ["x", "y"], ["b"], ["leaf", "ext"], "mutated"],
+        ["Tagger", ["x"], ["b"], ["Multi", [["TBT"]]], "iter"], ["Tagger", ["x"], ["b"], ["Multi", [["TBT"]]], "mutated"]]
     d3 = []
     for s in d2:
         if s[0] in ("E2O", "Multi"):
